@@ -11,7 +11,7 @@ pub fn plan() -> Plan {
         meta: Meta {
             property: "C15",
             level: "exploration",
-            rule: "model differential after EVERY step: records_count, records_count_detailed (counts per blob in order, ids of closed blobs), records_count_in_active_blob, blobs_count, next_blob_id, corrupted_blobs_count against the model (records physically appended per blob incl. markers, blobs that exist); disk_used against the directory listing: exact equality at quiescent points (right after free_excess_resources + worker barrier when the active blob has no index file), otherwise bounded by [sum of blob files, sum of blob+index files]. Histories: puts/deletes (incl. deletes into closed blobs), manual close/restore/create, background variants, force updates, dumps, restarts with index removal, plus quarantine scenarios (see observed.quarantine_*). Non-trivial = history with >=1 lifecycle operation that ran >=3 steps.",
+            rule: "model differential after EVERY step: records_count, records_count_detailed (counts per blob in order, ids of closed blobs), records_count_in_active_blob, blobs_count, next_blob_id, corrupted_blobs_count against the model (records physically appended per blob incl. markers, blobs that exist); disk_used against the directory listing: exact equality at quiescent points (right after free_excess_resources + worker barrier when the active blob has no index file), otherwise bounded by [sum of blob files, sum of blob+index files]. Histories: puts/deletes (incl. deletes into closed blobs), manual close/restore/create, background variants, force updates, dumps, restarts with index removal, plus quarantine scenarios (a blob cut inside a record header with its index removed => quarantined; cut exactly at a record boundary => regenerated shorter; counters re-checked after two restarts; see observed.quarantine_scenarios_*). Non-trivial = history with >=1 lifecycle operation that ran >=3 steps.",
             assumptions: vec!["verdict holds for the executions produced by this seed only"],
         },
         shards: 16,
@@ -37,6 +37,115 @@ pub fn spec() -> Spec {
     }
 }
 
+/// Quarantine scenario: a history, clean close, one blob damaged so that it must be quarantined (cut inside a
+/// record header + index removed) or regenerated shorter (cut exactly at a record boundary), reopen: every
+/// counter must follow (corrupted_blobs_count, blobs_count, per-blob counts, records_count, next_blob_id, disk_used).
+async fn quarantine_scenario(d: &mut crate::drive::Driver<8>, ops: &[crate::ops::Op], rng: &mut crate::rng::Rng) -> Result<&'static str, crate::drive::Mismatch> {
+    use crate::ops::Op;
+    d.open(false).await?;
+    for op in ops {
+        d.step(op).await?;
+    }
+    d.step(&Op::Dump).await?;
+    d.close().await?;
+    let ids: Vec<usize> = d.model.blobs.iter().filter(|(_, r)| !r.is_empty()).map(|(id, _)| *id).collect();
+    if ids.len() < 2 {
+        // with a single non-empty blob the reopen takes the "nothing left" paths, which are C06's subject
+        return Ok("no-records");
+    }
+    let victim = *rng.pick(&ids);
+    let path = d.dir.join(format!("t.{}.blob", victim));
+    let bytes = std::fs::read(&path).unwrap_or_default();
+    let bp = crate::parse::parse_blob(&bytes);
+    if bp.records.is_empty() {
+        return Ok("no-records");
+    }
+    let kind;
+    if rng.chance(2, 3) {
+        // inside the header of a random record: the blob cannot be scanned => quarantine
+        let r = rng.pick(&bp.records);
+        let cut = r.pos + 1 + rng.below(r.header_len - 1);
+        std::fs::write(&path, &bytes[..cut as usize]).unwrap();
+        let _ = std::fs::remove_file(path.with_extension("index"));
+        d.model.quarantine(victim);
+        kind = "quarantined";
+    } else {
+        // exactly at a record boundary: a shorter, well-formed blob; its index no longer matches and is regenerated
+        if bp.records.len() < 2 {
+            return Ok("no-records");
+        }
+        let keep = 1 + rng.below(bp.records.len() as u64 - 1) as usize;
+        let cut = bp.records[keep - 1].end();
+        std::fs::write(&path, &bytes[..cut as usize]).unwrap();
+        d.model.blobs.get_mut(&victim).unwrap().truncate(keep);
+        kind = "shortened";
+    }
+    let lazy = rng.chance(1, 3);
+    let all_gone = d.model.blobs.is_empty();
+    d.model.restart(lazy);
+    if all_gone && lazy {
+        // every blob quarantined + lazy init: no active blob is created
+        d.model.active = None;
+        d.model.blobs.clear();
+        d.model.closed.clear();
+        d.model.next_id = d.model.ids_ever.iter().next_back().map(|i| i + 1).unwrap_or(0);
+    }
+    d.open(lazy).await?;
+    d.model.next_id = d.model.next_id.max(d.model.ids_ever.iter().next_back().map(|i| i + 1).unwrap_or(0));
+    d.check(S_COUNTS | S_DISK | crate::drive::S_READ).await?;
+    // a second restart: the quarantined blob stays counted, ids stay above it
+    d.close().await?;
+    let all_gone2 = d.model.blobs.is_empty();
+    d.model.restart(false);
+    if all_gone2 {
+        // the directory has no blob file left: init_new
+    }
+    d.open(false).await?;
+    d.model.next_id = d.st().next_blob_id().max(d.model.next_id);
+    d.check(S_COUNTS | S_DISK).await?;
+    d.close().await?;
+    Ok(kind)
+}
+
 pub fn shard(ctx: &Ctx) -> Shard {
-    super::modelchk::shard(ctx, &spec())
+    use crate::runner::{block_on_catch, new_dir, rm_dir};
+    let mut sub = ctx.clone();
+    let total = ctx.deadline.saturating_duration_since(std::time::Instant::now());
+    sub.deadline = std::time::Instant::now() + total * 4 / 5;
+    let mut sh = super::modelchk::shard(&sub, &spec());
+    // quarantine scenarios in the remaining fifth of the budget
+    let mut rng = crate::rng::Rng::new(crate::rng::mix(ctx.shard_seed(), 0xC15));
+    let p = Profile::c15();
+    while ctx.time_left() {
+        let mut cfg = super::common::random_cfg(&mut rng, p.n_keys, p.n_meta, Some(true));
+        cfg.keylen = 8;
+        cfg.validate_data = rng.chance(1, 2);
+        let mut p2 = p.clone();
+        p2.w_restart = 0;
+        p2.w_bg = 0;
+        let ops = crate::ops::gen_history(&mut rng, &p2);
+        let dir = new_dir("c15q-");
+        let mut d: crate::drive::Driver<8> = crate::drive::Driver::new(dir.clone(), cfg.clone(), 0xC15);
+        let seed = rng.next();
+        let mut crng = crate::rng::Rng::new(seed);
+        let r = block_on_catch(cfg.mt, quarantine_scenario(&mut d, &ops, &mut crng));
+        rm_dir(&dir);
+        sh.evaluations += 1;
+        let replay = serde_json::json!({"check": "c15-quarantine", "cfg": cfg.to_json(), "history": crate::ops::history_json(&ops), "seed": seed});
+        match r {
+            Ok(Ok(kind)) => {
+                sh.add(&format!("quarantine_scenarios_{}", kind), 1);
+                sh.nontrivial.insert(seed);
+            }
+            Ok(Err(m)) => {
+                if matches!(m.class, Class::Counts | Class::DiskUsed) {
+                    sh.violation(&ctx.known, "C15", ctx.seed, &format!("C15/quarantine-scenario/{}", m.sig), &m.detail, replay);
+                } else {
+                    sh.add("desync_histories", 1);
+                }
+            }
+            Err(p) => sh.violation(&ctx.known, "C15", ctx.seed, "C15/quarantine-scenario/panic", &p, replay),
+        }
+    }
+    sh
 }
